@@ -46,6 +46,9 @@ def run(ctx):
     RT2.check_recursion_coverage(ctx, 'R12.5', only={'group_period', 'group_as', 'group_aliased', 'group_identifier', 'group_order', 'group_typecasts', 'group_arrays'})
     check_followers(ctx, V)
     from .. import rules_base as RB
+    from .. import rules_lexer as RL_
+    ctx.rule('R12.S', 'Lexer.get_tokens interpreted on short texts agrees token by token with the rule-table model the other rules use', floor=1)
+    RL_.check_scan_semantics(ctx, 'R12.S')
     ctx.rule('R12.B', 'base model: token-type containment, token flags / normal form, Token.match and imt behave as the abstract evaluation assumes', floor=1)
     RB.check_base_model(ctx, 'R12.B', parts=('contains', 'flags', 'match', 'imt'))
 
